@@ -55,7 +55,7 @@ def showEngine (mode : String) (n : Nat) (c : Cfg) (s : Sys) : String :=
     | some _, none => true
     | none, _ => false
   let fifo := if mode == "direct" then b2s (s.printed == s.puts) else "-"
-  s!"sc={edigits (ecountsOf n (s.scans.map (·.id)))};pr={edigits (ecountsOf n s.printed)};er={edigits (ecountsOf n s.errLogged)};fifo={fifo};doneok={b2s (s.doneClosed && allExited s.workers)};conc={b2s (decide (s.workers.length ≤ c.W))};ret={b2s (s.main == .returned)};early={b2s early};panic={b2s s.panicked}"
+  s!"sc={edigits (ecountsOf n (s.scans.map (·.id)))};pr={edigits (ecountsOf n s.printed)};er={edigits (ecountsOf n s.errLogged)};nput={if mode == "direct" then toString s.puts.length else "-"};nout={s.printed.length};fifo={fifo};doneok={b2s (s.doneClosed && allExited s.workers)};conc={b2s (decide (s.workers.length ≤ c.W))};ret={b2s (s.main == .returned)};early={b2s early};panic={b2s s.panicked}"
 
 def parseEngineObs (s : String) : Option Spec.Engine.Obs := do
   let m := ekvs s
@@ -76,7 +76,7 @@ def handleEngine : List String → Option String
       let v := match parseEngineObs obs with
         | some o => Spec.Engine.holdsGenErr o
         | none => false
-      pure s!"sc=;pr=;er=1;fifo=-;doneok=1;conc=1;ret=1;early=0;panic=0\t{b2s v}"
+      pure s!"sc=;pr=;er=1;nput=-;nout=0;fifo=-;doneok=1;conc=1;ret=1;early=0;panic=0\t{b2s v}"
     else
       let c := engineCfg W 3
       let s := run c true none (engineFuel ks.length W) seed none 0 (init (mkReqs ks) [])
